@@ -3,6 +3,7 @@ import Uhppote.Spec.Api
 import Uhppote.Gen.Routing
 import Uhppote.Gen.Driver
 import Uhppote.Proofs.Buffers
+import Uhppote.Gen.Source
 /-! # C03 — only a well-formed reply from the addressed controller is ever accepted
 
 `Model.Api.driverReply` + the checks of `sendto` (regenerated list `Gen.Routing.sendtoChecks`):
@@ -136,5 +137,11 @@ theorem C03_accepts_only_well_formed (cfg : Cfg) (op : Op) (args : List Arg) (ar
                   exact ⟨d, hmem, by simpa using hlen, by simpa using hser, r, hu, rfl⟩
                 | err => simp [hu] at hres
                 | panic => simp [hu] at hres
+
+/-- the serial number a reply is compared with is the parameter of the call and nothing else can be: no method of
+    the client or of the driver stores anything into its receiver (regenerated: every assignment, increment / decrement, delete or
+    clear whose target is rooted at the receiver, or at a local that names one of its fields), so an overlapping call
+    cannot change what this one is waiting for -/
+theorem C03_no_client_state : Gen.Source.receiverWrites = [] := by decide
 
 end Uhppote.Props.C03
